@@ -19,6 +19,24 @@ class Stall(Exception):
 def cases(rng, tier):
     yield {"continuum": {"a": [[0.0, 1.0, "x"], [1.0, 2.0, "x"]], "b": [[0.0, 50.0, "x"], [0.5, 60.0, "x"]]}, "w": 1, "dissim": ["combined", 1.0, 1.0, 1.0, None]}
     yield {"continuum": {"a": [[0.0, 1.0, "x"], [1.0, 2.0, "x"]], "b": [[0.0, 5.0, "x"], [0.0, 6.0, "x"]]}, "w": 1, "dissim": ["positional", 1.0]}
+    k = 0
+    for n, mx, cnt in ((2, 4, 12), (3, 3, 8), (4, 2, 4)):
+        for spec in common.grid_continua(rng, n, mx, 14, ["a", "b"], allow_empty=True, count=cnt if tier == "quick" else cnt * 6):
+            if sum(len(v) for v in spec.values()) == 0:
+                continue
+            tot = sum(len(v) for v in spec.values())
+            # the statement's quantifier: every window size 1 .. ceil(units / annotators) + 1 (the last two cover the whole continuum)
+            for w in range(1, -(-tot // n) + 2):
+                yield {"continuum": spec, "w": w, "dissim": DISSIMS[k % len(DISSIMS)]}
+            k += 1
+    # windows that cover the whole continuum although one annotator has fewer units than w (the fast disorder must equal the optimum)
+    for spec, ws in (({"A": [[0.0, 20.0, "x"], [13.0, 16.0, "x"], [15.0, 18.0, "x"], [17.0, 37.0, "x"]],
+                       "B": [[0.0, 2.0, "x"], [14.0, 34.0, "x"], [20.0, 22.0, "x"]]}, (4, 5)),
+                     ({"A": [[16.0, 18.0, "x"], [20.0, 60.0, "x"], [21.0, 24.0, "x"]],
+                       "B": [[10.0, 20.0, "x"], [14.0, 54.0, "x"], [15.0, 16.0, "x"]]}, (3, 4))):
+        for w in ws:
+            for dsm in (["positional", 1.0], ["combined", 1.0, 1.0, 1.0, None]):
+                yield {"continuum": spec, "w": w, "dissim": dsm}
     # an annotator with a "background" unit spanning the whole continuum next to short ones: the first window's limit is then the
     # continuum's end although most units lie outside the window
     bg = {"A": [[0.0, 1000.0, "a"], [10.0, 20.0, "a"], [30.0, 40.0, "b"], [50.0, 60.0, "a"], [500.0, 520.0, "b"]], "B": [[10.0, 20.0, "a"]]}
@@ -35,16 +53,6 @@ def cases(rng, tier):
         tot = sum(len(v) for v in spec.values())
         for w in range(1, -(-tot // 2) + 2):
             yield {"continuum": spec, "w": w, "dissim": DISSIMS[w % len(DISSIMS)]}
-    k = 0
-    for n, mx, cnt in ((2, 4, 12), (3, 3, 8), (4, 2, 4)):
-        for spec in common.grid_continua(rng, n, mx, 14, ["a", "b"], allow_empty=True, count=cnt if tier == "quick" else cnt * 6):
-            if sum(len(v) for v in spec.values()) == 0:
-                continue
-            tot = sum(len(v) for v in spec.values())
-            # the statement's quantifier: every window size 1 .. ceil(units / annotators) + 1 (the last two cover the whole continuum)
-            for w in range(1, -(-tot // n) + 2):
-                yield {"continuum": spec, "w": w, "dissim": DISSIMS[k % len(DISSIMS)]}
-            k += 1
 
 
 def check(inp):
